@@ -1186,6 +1186,15 @@ func genTypeClassMethod(ctx TaggedStructContext, derives fp.Seq[metafp.TypeClass
 	return genMethod
 }
 
+// mutableFieldName is the name a field has in the generated Mutable struct: an embedded field
+// is embedded there as well and keeps the name of its type.
+func mutableFieldName(f metafp.StructField) string {
+	if f.Embedded {
+		return f.Name
+	}
+	return publicName(f.Name)
+}
+
 func genMutable(ctx TaggedStructContext, genMethod fp.Set[string]) fp.Set[string] {
 	ts := ctx.ts
 	w := ctx.w
@@ -1246,7 +1255,7 @@ func genMutable(ctx TaggedStructContext, genMethod fp.Set[string]) fp.Set[string
 	if ts.Info.Method.Get("AsMutable").IsEmpty() {
 
 		fields := iterator.Map(iterator.FromSeq(allFields), func(f metafp.StructField) string {
-			return fmt.Sprintf(`%s : r.%s`, publicName(f.Name), f.Name)
+			return fmt.Sprintf(`%s : r.%s`, mutableFieldName(f), f.Name)
 		}).MakeString(",\n")
 
 		fmt.Fprintf(w, `
@@ -1266,7 +1275,7 @@ func genMutable(ctx TaggedStructContext, genMethod fp.Set[string]) fp.Set[string
 	if !isMethodDefined(workingPackage, mutableTypeName, "AsImmutable") {
 
 		fields := iterator.Map(iterator.FromSeq(allFields), func(f metafp.StructField) string {
-			return fmt.Sprintf(`%s : r.%s`, f.Name, publicName(f.Name))
+			return fmt.Sprintf(`%s : r.%s`, f.Name, mutableFieldName(f))
 		}).MakeString(",\n")
 
 		fmt.Fprintf(w, `
